@@ -589,7 +589,9 @@ func Check() *core.Check {
 					N:      int64(len(ws)),
 					Serial: true,
 					Run: func(t *core.T, i int64) {
-						t.ShareBudget(int64(len(ws)) - i)
+						if tier == "thorough" {
+							t.ShareBudget(int64(len(ws)) - i)
+						}
 						exploreWorkload(t, ws[i], bound)
 					},
 				},
